@@ -71,8 +71,9 @@ RECURSIVE PathMatch(_, _, _)
 PathMatch(P, f, z) ==
   IF P = <<>> THEN f = <<>>
   ELSE IF IsDS(Head(P))
-       THEN \/ IF Tail(P) = <<>> /\ f = <<>> THEN z ELSE PathMatch(Tail(P), f, z)
-            \/ f # <<>> /\ PathMatch(P, Tail(f), z)
+       THEN IF Tail(P) = <<>> THEN f # <<>> \/ z                    \* trailing `**`: one or more segments, zero only under z
+            ELSE \/ PathMatch(Tail(P), f, z)
+                 \/ f # <<>> /\ PathMatch(P, Tail(f), z)
        ELSE f # <<>> /\ SegMatch(Head(P), Head(f)) /\ PathMatch(Tail(P), Tail(f), z)
 
 Ancestors(f) == {SubSeq(f, 1, k) : k \in 1..(Len(f) - 1)}
